@@ -22,7 +22,14 @@ fn from_iter_stops_when_finished() {
   let delivered = if n < k { n } else { k };
   let mut i = 0;
   while i < delivered { assert!(l.ev[i] == Some(Ev::Next(items[i]))); i += 1; }
-  assert!(l.n == delivered + 1 && l.ev[delivered] == Some(Ev::Complete));
+  if delivered == n {
+    // the iterator was exhausted: completion follows the last item
+    assert!(l.n == n + 1 && l.ev[n] == Some(Ev::Complete));
+  } else {
+    // stopped early for a finished observer: nothing more may be pushed (a trailing `complete`
+    // into the finished observer is harmless and not constrained by the property)
+    assert!(l.n == delivered || (l.n == delivered + 1 && l.ev[delivered] == Some(Ev::Complete)));
+  }
 }
 
 // [C03] repeat(v, n) emits v exactly n times, then completes
